@@ -303,3 +303,9 @@ pub fn run(desc: &Value, ctx: &Ctx) -> CaseOut {
     out.fp = fp.hex();
     out
 }
+
+/// Run the view-operation tree on one region (used by the Miri round-trip driver).
+pub fn check_views(region: &ByteRegion, exp: &[u8], seed: u64, budget: u32, out: &mut CaseOut) {
+    let mut mon = Mon { out, source: "memory", rng: Rng::new(seed), budget };
+    mon.check_region(region, exp, 0);
+}
